@@ -45,6 +45,10 @@ each edge whose inputs_/outputs_/out-edges changed and `po ready=..` (the edges 
     the exit -- a load made while draining after a failure included -- is compared like any other;
   * dyndep_walk is a std::set<Edge*>: its iteration order (heap addresses) is not in the trace and does show
     in which pool edge gets delayed; ascending ids first, then the same search as for phony starts.
+  * `ev exit 1 stuck [this is a bug]` (status ExitFailure since "fix: exit with a failure status when the build
+    loop is stuck") is what the model expects on the stuck branch.  By C06_never_stuck it needs a cyclic graph
+    (C17 finding dyndep-output-cycle-not-named): such builds are outside wf_graph; they are replayed without the
+    wfgraph/wfsnap comparison and counted as `cyclic-graph-accepted`, or skipped if the model rejects something.
 """
 import os, sys, re, subprocess, hashlib, itertools, random, collections
 
@@ -259,12 +263,15 @@ class BuildCase:
         for e in s.edges:
             if e['pool'] not in s.pool_id:
                 s.pool_id[e['pool']] = len(s.depths); s.depths.append(int(e['depth']))
-        # rank = longest producer chain (None on a cycle)
-        memo = {}
+        # rank = longest producer chain.  A cyclic graph is outside wf_graph (the premise of the theorems);
+        # the real tree can reach Build() with one (C17 finding dyndep-output-cycle-not-named) and then
+        # leaves the loop with `ev exit 1 stuck [this is a bug]`.  The model is still run on it (back
+        # edges cut for the rank): an accepted trace is counted, a rejected one is skipped, not reported.
+        memo = {}; s.cyclic = False
         def rk(i, stack=()):
             if i in memo: return memo[i]
-            if i in stack: raise Skip('cyclic graph')
-            memo[i] = 1 + max([rk(p, stack + (i,)) for p in s.ins[i]] + [-1]); return memo[i]
+            if i in stack: s.cyclic = True; return -1
+            r = 1 + max([rk(p, stack + (i,)) for p in s.ins[i]] + [-1]); memo[i] = r; return r
         s.rank = [rk(i) for i in range(len(s.edges))]
 
     # -------------------------------------------------------------------------- model input
@@ -454,6 +461,7 @@ class BuildCase:
             if c is None or cur is None: continue
             if c[0] == 'init':
                 for f in ('wfgraph', 'wfsnap', 'wfcfg'):
+                    if s.cyclic and f != 'wfcfg': continue
                     if cur.get(f) != '1': bad.append('%s: snapshot violates %s' % (s.label, f))
             elif c[0] == 'ps':
                 bad += s.cmp_ps(cur, c[1], c[2], c[3] if len(c) > 3 else None)
@@ -517,6 +525,9 @@ def check_many(pairs):
     retry = []
     for (pi, c, L, C), o in zip(cases, out):
         bad = c.compare(L, C, o)
+        if c.cyclic:
+            if bad: stats['skipped: cyclic graph'] += 1; continue
+            stats['cyclic-graph-accepted (outside wf_graph)'] += 1
         stats['replayed'] += 1
         stats['events'] += sum(1 for x in C if x and x[0] == 'ev')
         stats['ps-compared'] += sum(1 for x in C if x and x[0] == 'ps')
